@@ -3,7 +3,7 @@
 PROP = {'modules': ['AmVerif.Props.C06'],
  'engines': [{'name': 'hr', 'quick': 160, 'thorough': 4000, 'shrink': False,
               'classes': ['reload-id-decreased', 'reloaded-twice-in-a-pass', 'rewrite-not-reported', 'rewritten-without-notification', 'watcher-wrong', 'reloaded-global-wrong', 'wrong-attribution', 'sync-timeout']},
-             {'name': 'iso', 'quick': 12, 'thorough': 100, 'classes': ['guard-rid-changed', 'returned-before-update', 'guard-value-changed']}],
+             {'name': 'iso', 'quick': 12, 'thorough': 100, 'classes': ['guard-rid-changed', 'returned-before-update', 'guard-value-changed', 'reported-more-than-once']}],
  'rule': 'hot-reloading histories over the in-memory source, 8 families by case index (the same generator as C05); family `precision` (every 8th case): '
          'random script DAG over 8 ids, 4 loaded, two ReloadWatchers per asset on 3 assets, then 4-9 rounds of: hot_reload with nothing notified / an edit '
          'that is never notified / notifications for unknown entries only / a notified edit (single, or batched with a duplicate and noise), each followed '
